@@ -253,8 +253,43 @@ def correspond(ctx):
     return fails + hdl.tie(ctx)
 
 
+def consistent_after_retry(ctx):
+    """An IKE_SA rekey / a CHILD_SA creation whose first request is answered with INVALID_KE_PAYLOAD by a responder that
+    keeps no state for it (RFC 7296 1.3) and then accepts the retry; the new SAs are used afterwards. When everything
+    has been delivered no exchange is left waiting and both ends hold the same IKE_SAs and CHILD_SAs."""
+    from props import hdl
+    from sim.scenarios import Pair
+    from sim.world import LoopEscape
+    fails = []
+    for label, acts, conf, seed, skip in hdl.deviant_set(True, 0):
+        if not label.endswith('/stateless_invalid_ke'):
+            continue
+        rep = {'kind': 'retry', 'label': label}
+        with Pair(seed=seed, **conf) as p:
+            try:
+                p.run(acts)
+                p.drain()
+                for _ in range(40):
+                    p.do(['tick', 1])
+                    p.drain()
+            except LoopEscape as ex:
+                fails.append(Failure('property', 'loop:escaped-exception', f'{label}: {ex.exc!r}', rep))
+                continue
+            ctx.case(['retry', label], nontrivial=True)
+            a = sorted((bytes(x.my_spi), bytes(x.peer_spi)) for x in p.A.controller.ike_sas if int(x.state) == 10)
+            b = sorted((bytes(x.peer_spi), bytes(x.my_spi)) for x in p.B.controller.ike_sas if int(x.state) == 10)
+            waiting = [(n, int(x.state)) for n in 'AB' for x in p.ep(n).controller.ike_sas if int(x.state) != 10]
+            if a != b or not a or waiting or sorted(p.A.kernel.sad) != sorted(p.B.kernel.sad):
+                fails.append(Failure('property', 'collision:ike-sas-differ',
+                                     f'{label}: after the INVALID_KE_PAYLOAD retry and 40 s of timers the established '
+                                     f'IKE_SAs are A {[x[0].hex() for x in a]} / B {[x[0].hex() for x in b]}, not '
+                                     f'established: {waiting}, kernel SAs {len(p.A.kernel.sad)}/{len(p.B.kernel.sad)}', rep))
+    return fails
+
+
 def oracle(ctx, deep):
     fails = crossing_exchanges(ctx, ctx.rng.getrandbits(32))
+    fails += consistent_after_retry(ctx)
     if fails:
         return fails
     kinds = [k for k in TRIGGERS if k != 'none']
@@ -309,6 +344,8 @@ def oracle(ctx, deep):
 
 
 def replay(ctx, obj):
+    if obj.get('kind') == 'retry':
+        return [f for f in consistent_after_retry(ctx) if f.replay.get('label') == obj.get('label')]
     if 'crossing' in obj:
         return crossing_exchanges(ctx, obj['seed'])
     if 'schedule' in obj:
